@@ -143,9 +143,24 @@ def check(rep, tier, seed):
             jobs.append((["view", "-m", ",".join(map(str, order)), "--precision", "1"], text_spectrum(sh, ints)))
             jobs.append((["view", "-M", ",".join(map(str, keep)), "--precision", "1"], text_spectrum(sh, ints)))
             exp_cases += ["marg %s %s %s" % (fmt(sh), ",".join(ints), fmt(order))] * 2
+    # inadmissible lists through the binary: an axis named twice (adjacent or not), out of range, all axes, too many
+    for sh, data in list(pool)[:8 if tier == "quick" else 60]:
+        d = len(sh)
+        ints = [str(abs(x)) for x in data]
+        a, b = (rng.sample(range(d), 2) if d >= 2 else (0, 0))
+        for ml in ([a, a], [a, b, a], [b, a, a], [d], [a, d + 2], list(range(d)), list(range(d)) + [a]):
+            jobs.append((["view", "-m", ",".join(map(str, ml)), "--precision", "1"], text_spectrum(sh, ints)))
+            exp_cases.append("marg %s %s %s" % (fmt(sh), ",".join(ints), fmt(ml)))
     mo2 = run_model(exp_cases)
     res = run_cli_many(jobs)
     for job, (rc, so, se), m in zip(jobs, res, mo2):
+        if not m.startswith("OK"):
+            rep.count("marginalize-cli-rejects", " ".join(job[0]), True)
+            if rc == 0 or so != b"" or rc == 101:
+                rep.fail(kind="cli-vs-model", cls="marginalize:cli-error-expected", argv=["sfs"] + job[0], stdin=job[1].decode(), case=None,
+                         observed={"rc": rc, "stdout": so.decode(errors="replace")[:300]}, expected=m[:200],
+                         detail="an inadmissible marginalization list (the model gives %s) must be rejected with an error and no output" % m[:60])
+            continue
         case = {"argv": ["sfs"] + job[0], "stdin": job[1].decode()}
         rep.count("marginalize-cli", str(case["argv"]) + case["stdin"], True)
         parsed = parse_text_spectrum(so)
